@@ -457,3 +457,37 @@ fn path_second_segment_fails() {
 
 // @verif property=EXP tier=quick timeout=1800 mem=24 bounds="convert_path_str on the CONCRETE two-segment string 'B|10:10|20:20|L|30:30|x:40' (bad coordinate in the second segment), symbolic offset"
 oracle_proof!(c14_path_second_segment_fails, 48, path_second_segment_fails());
+
+/// Slider nodes inherit the slider's own sample banks when the edge-set field is empty:
+/// `x,y,1000,2,2,L|200:100,2,100,2|2|2,,2:3:0:0:` (concrete apart from the position).
+fn slider_node_banks() {
+    let mut st = HitObjectsState::create(14);
+    let x = accept_f32_limit(stubs::seed_f32(b'a'), 131072.0);
+    let y = accept_f32_limit(stubs::seed_f32(b'b'), 131072.0);
+    let res = HitObjects::parse_hit_objects(&mut st, tok_line("$a,$b,1000,2,2,L|200:100,2,100,2|2|2,,2:3:0:0:"));
+    assert!(res.is_ok() == (x.is_some() && y.is_some()));
+    if res.is_ok() {
+        match &st.hit_objects[0].kind {
+            HitObjectKind::Slider(s) => {
+                assert!(s.node_samples.len() == 3, "a slider has repeats + 2 node sample sets");
+                let mut i = 0;
+                while i < 3 {
+                    let node = &s.node_samples[i];
+                    // node hit sound 2 = normal (layered) + whistle; banks from the slider's extras
+                    assert!(node.len() == 2);
+                    assert!(bank_code(node[0].bank) == 2 && node[0].bank_specified, "node normal bank not inherited from the slider");
+                    assert!(bank_code(node[1].bank) == 3 && node[1].bank_specified, "node addition bank not inherited from the slider");
+                    assert!(node[0].is_layered && !node[1].is_layered);
+                    i += 1;
+                }
+                kani::cover!(true, "slider decoded");
+            }
+            _ => panic!("must be a slider"),
+        }
+        assert!(samples_match(&st.hit_objects[0].samples, &ref_samples(2, Some(SampleBank::Soft), Some(SampleBank::Drum), 0, 0)));
+    }
+    core::mem::forget(st);
+}
+
+// @verif property=EXP tier=quick timeout=3000 mem=32 bounds="slider line '$a,$b,1000,2,2,L|200:100,2,100,2|2|2,,2:3:0:0:' (concrete apart from the position): node sample sets inherit the slider's banks"
+oracle_proof!(c14_slider_node_banks, 48, slider_node_banks());
